@@ -1161,6 +1161,9 @@ func (r *run) replay() {
 		} else {
 			fmt.Println("oracles hold")
 		}
+	case "late-provider":
+		r.lateProviderCases(r.c.Rng.Fork("hfind"))
+		fmt.Println("replayed the late-provider histories (all variants)")
 	case "constructor":
 		fmt.Println("constructor / cancellation cases are not replayable one by one; run the check")
 	case "concurrent-history":
